@@ -221,6 +221,18 @@ def judge(spec):
                 for k, m in check_function("f", f, type(f).__name__, par, nP, nF):
                     probs.append((k + ":second-solve", m))
             n += 100
+            # ---- third round: solve once more with NOTHING changed (same samples, same table layout): the tables must be
+            #      those of this last solve (seeded change C13-m19: a table of unchanged layout kept from the previous solve)
+            r3 = solving.solve(ctx.pep, mode=mode, dr=dr)
+            if r3["exc"] is None and r3["value"] is not None and r3["status"] == "optimal":
+                nP, nF = Point.counter, Expression.counter
+                for f in Function.list_of_functions:
+                    if not f.get_is_leaf() or type(f) is Function or type(f).__name__ not in models.CLASSES:
+                        continue
+                    par = {k: getattr(f, k) for k in ("mu", "L", "M", "D", "beta", "rho") if hasattr(f, k)}
+                    for k, m in check_function("f", f, type(f).__name__, par, nP, nF):
+                        probs.append((k + ":third-solve-unchanged", m))
+                n += 1000
     except Exception as e:
         probs.append(("second-solve-raised:%s" % type(e).__name__, str(e)[:150]))
     # ---- the set of tables of a function does not depend on how many samples it has (>= 1): it is compared with the set
